@@ -120,6 +120,12 @@ def check_edge_jacobians(seed, n_per):
                     vals = [list(map(float, np.asarray(e.vertices[0].pose))), list(map(float, np.asarray(e.vertices[1].pose)))] + list(vals[2:])
                 if near_wrap(e, name):
                     continue
+                if rng.random() < 0.25:
+                    # the information matrix as callers write it: an integer array (np.eye(n, dtype=int), np.diag([100, 100, 400])) or float32;
+                    # the Jacobians are derivatives of the error and have nothing to do with it
+                    n_ = len(np.asarray(e.calc_error()))
+                    e.information = rng.choice([np.eye(n_, dtype=int), np.diag([rng.randint(1, 400) for _ in range(n_)]),
+                                                np.eye(n_, dtype=np.float32), np.diag([rng.randint(1, 9) for _ in range(n_)]).astype(np.int8)])
                 Ja = [np.asarray(J, dtype=np.float64) for J in e.calc_jacobians()]
                 Jn = num_jacobians(e)
                 Jn2 = num_jacobians(e, h=3e-6)      # second step size: the disagreement of the two estimates measures the rounding noise
@@ -136,6 +142,50 @@ def check_edge_jacobians(seed, n_per):
                                       'after_history': seq and {'call': seq, 'then': 'pose array of vertex %d overwritten in place' % kk, 'vertex': kk,
                                                                 'initial_vals': vals0},
                                       'analytic': a.tolist(), 'numeric': b.tolist()})
+                        break
+            except Exception as ex:  # noqa
+                fails.append({'edge': name, 'vals': vals, 'why': 'raised %r' % (ex,)})
+    # the perturbation applied the way the optimizer and the numerical-Jacobian helper apply it (vertex.pose += delta), on R^n edges whose points
+    # (or a point and the measurement) were built from ONE float64 array -- e.g. every vertex initialised from the same initial-guess array
+    for name in edge_names():
+        kinds = kinds_of(name)
+        if not all(k in ('R2', 'R3') for k in kinds if k):
+            continue
+        for i in range(max(2, n_per // 4)):
+            vals = gen_case(rng, name, 'typical')
+            mode = rng.choice(['both_vertices', 'vertex0_and_measurement', 'vertex1_and_measurement', 'separate'])
+            try:
+                e, _ = ce.build(name, vals)
+                shared = np.array(vals[0], dtype=np.float64)
+                if mode == 'both_vertices':
+                    for v in e.vertices:
+                        v.pose = type(v.pose)(shared)
+                elif mode != 'separate':
+                    k_ = 0 if mode.startswith('vertex0') else 1
+                    e.vertices[k_].pose = type(e.vertices[k_].pose)(shared)
+                    e.estimate = type(e.estimate)(shared)
+                vals = [[float(x) for x in np.asarray(e.vertices[0].pose)], [float(x) for x in np.asarray(e.vertices[1].pose)],
+                        [float(x) for x in np.asarray(e.estimate)]] + list(vals[3:])
+                Ja = [np.asarray(J, dtype=np.float64).copy() for J in e.calc_jacobians()]
+                evals += 1
+                h = 1e-3
+                for k, v in enumerate(e.vertices):
+                    dim = len(np.asarray(v.pose))
+                    Jn = np.zeros((len(np.asarray(e.calc_error())), dim))
+                    for d in range(dim):
+                        dp = np.zeros(dim); dp[d] = h
+                        keep = v.pose
+                        v.pose += dp
+                        ep = np.asarray(e.calc_error(), dtype=np.float64).copy()
+                        v.pose = keep
+                        v.pose += -dp
+                        em = np.asarray(e.calc_error(), dtype=np.float64).copy()
+                        v.pose = keep
+                        Jn[:, d] = (ep - em) / (2 * h)
+                    if Ja[k].shape != Jn.shape or not np.abs(Ja[k] - Jn).max() <= 1e-6:
+                        fails.append({'edge': name, 'vals': vals, 'vertex': k, 'why': 'points built from one array (%s), perturbed by vertex.pose += delta: max |J - numeric| = %g'
+                                      % (mode, float(np.abs(Ja[k] - Jn).max()) if Ja[k].shape == Jn.shape else float('nan')),
+                                      'shared_array': mode, 'analytic': Ja[k].tolist(), 'numeric': Jn.tolist()})
                         break
             except Exception as ex:  # noqa
                 fails.append({'edge': name, 'vals': vals, 'why': 'raised %r' % (ex,)})
@@ -341,7 +391,83 @@ def measurement_model(seed, n_per):
             tot3 = g.calc_chi2()
             if not abs(tot3) <= 1e-12 * (1 + abs(tot)):
                 fails.append({'edge': 'graph', 'law': 'after making every measurement consistent with the vertices of an already evaluated graph, calc_chi2() returns %r instead of 0' % float(tot3)})
+    # the measurement model THROUGH the .g2o entry point: a file in the standard layout (written here, not by the library's exporter) whose vertex ids
+    # are of every size -- small, negative, around 2^31, and beyond 2^53 where neighbouring integers are not all doubles.  Every edge must be bound to
+    # the vertices the file names and the graph chi2 must be the in-memory value
+    import os
+    import tempfile
+    from graphslam.pose.se2 import PoseSE2 as _P2
+    for i in range(max(4, n_per // 4)):
+        kind = rng.choice(['SE2', 'SE3'])
+        path = os.path.join(tempfile.gettempdir(), 'verif_c02_%d.g2o' % os.getpid())
+        try:
+            g0, _ = build_graph(rng, kind, nv=rng.randint(3, 6), landmarks=True)
+            for e in g0._edges:
+                if kind == 'SE2' and getattr(e, 'offset', None) is not None:
+                    e.offset = _P2.identity()                       # EDGE_SE2_XY carries no offset
+                if kind == 'SE3' and len(np.asarray(e.estimate)) == 7 and float(e.estimate[6]) < 0:
+                    e.estimate = type(e.estimate)(np.asarray(e.estimate)[:3], -np.asarray(e.estimate)[3:])   # the loader's canonical sign (q and -q: same rotation)
+            base = rng.choice([0, -40, 2 ** 31 - 3, 2 ** 53 - 3, 2 ** 53, 2 ** 53 + 2 ** 20, 2 ** 62, -(2 ** 53) - 9])
+            idmap = {v.id: base + k for k, v in enumerate(g0._vertices)}
+            want = [[idmap[x] for x in e.vertex_ids] for e in g0._edges]
+            ref = 0.0
+            for e in g0._edges:
+                ref = ref + float(e.calc_chi2())
+            with open(path, 'w') as f:
+                f.write(g2o_text_any(g0, idmap))
+            g1 = Graph.from_g2o(path)
+            evals += 1
+            got = [[int(x) for x in e.vertex_ids] for e in g1._edges]
+            bound = [[int(v.id) for v in e.vertices] for e in g1._edges]
+            if sorted(map(tuple, got)) != sorted(map(tuple, want)) or got != bound:
+                fails.append({'edge': 'graph', 'law': 'a .g2o file with vertex ids from %d on: the loaded edges name the vertices %r and are bound to %r, the file '
+                              'names %r' % (base, got, bound, want), 'kind': kind})
+                continue
+            c = float(g1.calc_chi2())
+            if not abs(c - ref) <= 1e-9 * (1 + abs(ref)):
+                fails.append({'edge': 'graph', 'law': 'a .g2o file with vertex ids from %d on: graph chi2 %r, the same measurements in memory give %r' % (base, c, ref),
+                              'kind': kind})
+        except Exception as ex:  # noqa
+            fails.append({'edge': 'graph', 'law': 'the .g2o entry point raised %r' % (ex,), 'kind': kind})
+        finally:
+            if os.path.exists(path):
+                os.remove(path)
     return evals, fails
+
+
+def g2o_text_any(g, idmap):
+    """SE(2) / SE(3) graph as .g2o text in the standard g2o layout with the vertex ids replaced through idmap; written independently of the library"""
+    def nums(xs):
+        return ' '.join(repr(float(x)) for x in xs)
+
+    def triu(M):
+        M = np.asarray(M, dtype=np.float64)
+        return [M[i, j] for i in range(len(M)) for j in range(i, len(M))]
+    tagv = {3: 'VERTEX_SE2', 2: 'VERTEX_XY', 7: 'VERTEX_SE3:QUAT'}
+    se3 = any(len(np.asarray(v.pose)) == 7 for v in g._vertices)
+    if se3:
+        tagv[3] = 'VERTEX_TRACKXYZ'
+    lines, params = [], []
+    for e in g._edges:
+        if getattr(e, 'offset', None) is not None and se3:
+            key = tuple(float(x) for x in np.asarray(e.offset))
+            if key not in params:
+                params.append(key)
+    for k, key in enumerate(params):
+        lines.append('PARAMS_SE3OFFSET %d %s' % (7 + k, nums(key)))
+    for v in g._vertices:
+        lines.append('%s %d %s' % (tagv[len(np.asarray(v.pose))], idmap[v.id], nums(np.asarray(v.pose))))
+    for e in g._edges:
+        a, b = (idmap[x] for x in e.vertex_ids)
+        z, om = nums(np.asarray(e.estimate)), nums(triu(e.information))
+        if getattr(e, 'offset', None) is not None:
+            if se3:
+                lines.append('EDGE_SE3_TRACKXYZ %d %d %d %s %s' % (a, b, 7 + params.index(tuple(float(x) for x in np.asarray(e.offset))), z, om))
+            else:
+                lines.append('EDGE_SE2_XY %d %d %s %s' % (a, b, z, om))
+        else:
+            lines.append('%s %d %d %s %s' % ('EDGE_SE3:QUAT' if se3 else 'EDGE_SE2', a, b, z, om))
+    return '\n'.join(lines) + '\n'
 
 
 # ------------------------------------------------------------------------------------------------
